@@ -198,6 +198,10 @@ def main():
     for f in holed:
         ilgen.add_holes(f, hr); f["meta"]["holes"] = True
     fs += holed
+    # dead code that jumps into live joins (block indices below and above the live predecessors)
+    dead = ilgen.corpus(9200 + rep.seed, 15 if rep.tier == "quick" else 90, profile="mixed", widths=(32,), skeletons=[k for k in ilgen.SKELETONS if k.startswith("unreachable")])
+    for f in dead: f["meta"]["dead"] = True
+    fs += dead
     items = []
     for i, f in enumerate(fs):
         for direction in ("forward", "backward"):
